@@ -6,12 +6,12 @@ Import ListNotations.
 Definition add_route (cs : cluster) (r : route) : cluster :=
   {| c_classes := c_classes cs; c_gateways := c_gateways cs; c_routes := r :: c_routes cs;
      c_services := c_services cs; c_secrets := c_secrets cs; c_grants := c_grants cs;
-     c_namespaces := c_namespaces cs |}.
+     c_namespaces := c_namespaces cs; c_btps := c_btps cs; c_cms := c_cms cs |}.
 
 Definition add_gateway (cs : cluster) (g : gateway) : cluster :=
   {| c_classes := c_classes cs; c_gateways := g :: c_gateways cs; c_routes := c_routes cs;
      c_services := c_services cs; c_secrets := c_secrets cs; c_grants := c_grants cs;
-     c_namespaces := c_namespaces cs |}.
+     c_namespaces := c_namespaces cs; c_btps := c_btps cs; c_cms := c_cms cs |}.
 
 (* a Route none of whose parentRefs names gateway g *)
 Definition route_ignores (g : gateway) (r : route) : bool :=
